@@ -35,7 +35,7 @@ class Grid final {
    */
   bool isSteadilyIncreasing() const {
     for (size_t i = 1; i < _data->size(); i++) {
-      if ((*_data)[i - 1] >= (*_data)[i]) {
+      if (!((*_data)[i - 1] < (*_data)[i])) {
         return false;
       }
     }
